@@ -212,6 +212,15 @@ func run(c *hc.Ctx) {
 		if overl {
 			c.Count("input-with-overlapping-edges")
 		}
+		// distinct vertices closer than 2.5 cells of the 1e-8 snap grid (class 1 perturbs vertices by
+		// 1e-7..1e-9): the recorded sub-grid defect applies to region failures of such operands only
+		sfx := ""
+		if overl {
+			sfx = "+overlapping-edges"
+		} else if hc.SubGridVertices(2.5*canvas.BentleyOttmannEpsilon, cp, cq) {
+			sfx = "+sub-grid-vertices"
+			c.Count("input-with-sub-grid-vertices")
+		}
 		for _, op := range opNames {
 			c.Evals++
 			var R *canvas.Path
@@ -260,9 +269,7 @@ func run(c *hc.Ctx) {
 					if prefilterApplies(cp, cq) {
 						cls += "+prefilter"
 					}
-					if overl {
-						cls += "+overlapping-edges"
-					}
+					cls += sfx
 					c.Fail("region:"+op+":"+cls, fmt.Sprintf("%s: point (%v,%v) expected filled=%v, result winding %d", op, pt.X, pt.Y, exp, wr),
 						map[string]any{"op": op, "P": P.String(), "Q": Q.String(), "R": R.String(), "point": []float64{pt.X, pt.Y}})
 					break
@@ -273,11 +280,11 @@ func run(c *hc.Ctx) {
 			if prefilterApplies(cp, cq) {
 				kind += " +prefilter"
 			}
-			if overl {
+			if sfx != "" {
 				if strings.Contains(kind, " ") {
-					kind += "+overlapping-edges"
+					kind += sfx
 				} else {
-					kind += " +overlapping-edges"
+					kind += " " + sfx
 				}
 			}
 			c.Case(line, "!", kind)
@@ -298,11 +305,11 @@ func run(c *hc.Ctx) {
 						if prefilterApplies(cq, cp) {
 							sk += " +prefilter"
 						}
-						if overl {
+						if sfx != "" {
 							if strings.Contains(sk, " ") {
-								sk += "+overlapping-edges"
+								sk += sfx
 							} else {
-								sk += " +overlapping-edges"
+								sk += " " + sfx
 							}
 						}
 						c.Case(line, "!", sk)
@@ -351,9 +358,11 @@ func run(c *hc.Ctx) {
 			op := ops[c.Intn(len(ops))]
 			cp, _ := hc.Contours(P)
 			cq, _ := hc.Contours(Q)
+			// since e1c72e9/1501096/4e53250 the whole class is handled correctly, shared edges included:
+			// no recorded defect applies (the suffix matches no known finding)
 			sg := "+small-grid"
 			if hc.OverlappingEdges(cp, cq) {
-				sg = "+overlapping-edges" // collinearly overlapping edges: the recorded defects apply
+				c.Count("small-grid:with-overlapping-edges")
 			}
 			c.Evals++
 			var R *canvas.Path
